@@ -555,8 +555,16 @@ func runC20(c *Ctx) {
 		}
 	}
 	c.Check("C20.S2", "component-inventory", nComp >= 12, 0, fmt.Sprintf("%d of %d listed shared component types resolved", nComp, len(components)))
+	// configuration objects the caller hands to several components (one ProtocolConfig for every version created from it):
+	// their content is shared state whichever parameter it arrives in
+	sharedConfig := map[string]bool{modPkg + "vdr/sidetreelongform/dochandler/protocolversion/versions/common.ProtocolConfig": true}
 	a.fieldSrc = func(fa *ssa.FieldAddr) bool {
 		t := fa.X.Type().Underlying().(*types.Pointer).Elem()
+		if sharedConfig[types.TypeString(t, nil)] && !isFreshBase(fa.X) {
+			if _, isParam := rootOf(fa.X).(*ssa.Parameter); isParam {
+				return true
+			}
+		}
 		if !isComponent(t) || isFreshBase(fa.X) {
 			return false
 		}
@@ -922,6 +930,97 @@ func runC20(c *Ctx) {
 	n := c.checkLockPairing("C20.L2")
 	_ = n
 	c.Min("C20.L2", 6)
+	// ---------- L5 no second acquisition of a mutex that is already held: sync.Mutex and sync.RWMutex are not re-entrant
+	// — a second RLock deadlocks as soon as a writer is waiting between the two
+	{
+		nHeld := 0
+		var bad []string
+		var acquires func(g *ssa.Function, sub map[string]string, d int) []string
+		acquires = func(g *ssa.Function, sub map[string]string, d int) []string {
+			var out []string
+			if g == nil || g.Blocks == nil || !inModule(g) || d > 3 {
+				return nil
+			}
+			render := func(p string) string {
+				for k, v := range sub {
+					if p == k || strings.HasPrefix(p, k+".") {
+						return v + p[len(k):]
+					}
+				}
+				return p
+			}
+			for _, l := range c.lockSites(g) {
+				if l.kind == "Lock" || l.kind == "RLock" {
+					out = append(out, render(l.mpath))
+				}
+			}
+			forEachInstr(g, func(in ssa.Instruction) {
+				cl, ok := in.(*ssa.Call)
+				if !ok {
+					return
+				}
+				h := cl.Call.StaticCallee()
+				if h == nil || h == g {
+					return
+				}
+				ns := map[string]string{}
+				for i, a := range cl.Call.Args {
+					ns[fmt.Sprintf("$%d", i)] = render(c.Path(a, nil))
+				}
+				out = append(out, acquires(h, ns, d+1)...)
+			})
+			return out
+		}
+		for _, f := range c.Funcs {
+			ls := c.lockSites(f)
+			if len(ls) == 0 {
+				continue
+			}
+			held := map[string]bool{}
+			for _, l := range ls {
+				if l.kind == "Lock" || l.kind == "RLock" {
+					held[l.mpath] = true
+				}
+			}
+			forEachInstr(f, func(in ssa.Instruction) {
+				cl, ok := in.(*ssa.Call)
+				if !ok {
+					return
+				}
+				g := cl.Call.StaticCallee()
+				if g == nil || !inModule(g) || g.Blocks == nil {
+					return
+				}
+				for m := range held {
+					if !c.lockHeldAt(f, cl, m, false) {
+						continue
+					}
+					nHeld++
+					ns := map[string]string{}
+					for i, a := range cl.Call.Args {
+						ns[fmt.Sprintf("$%d", i)] = c.Path(a, nil)
+					}
+					for _, am := range acquires(g, ns, 0) {
+						if am == m {
+							bad = append(bad, fmt.Sprintf("%s: %s calls %s while holding %s, which acquires it again", c.pos(cl.Pos()), short(f.String()), short(g.String()), m))
+						}
+					}
+				}
+			})
+			// … and directly: a second Lock / RLock of the same mutex while the first is held
+			for _, l := range ls {
+				if (l.kind == "Lock" || l.kind == "RLock") && !l.defer_ {
+					for _, l0 := range ls {
+						if l0.in != l.in && !l0.defer_ && (l0.kind == "Lock" || l0.kind == "RLock") && l0.mpath == l.mpath && instrDominates(l0.in, l.in) && c.lockHeldAt(f, l.in, l.mpath, false) {
+							bad = append(bad, fmt.Sprintf("%s: %s acquires %s while it already holds it", c.pos(l.in.Pos()), short(f.String()), l.mpath))
+						}
+					}
+				}
+			}
+		}
+		c.Check("C20.L5", "no-reentrant-acquisition", len(bad) == 0, 0, fmt.Sprintf("%d call(s) made with a mutex held; none of the callees acquires that mutex again", nHeld), bad...)
+		c.Min("C20.L5", 1)
+	}
 	c.Assume("documented concurrency-safe types: *regexp.Regexp, *slog.Logger, *log.Logger, error values; third-party state (did-go / json-gold document loaders, go-jose) and user-supplied handlers/validators are outside the claim; the effect analysis is field-based (no points-to), sound for the write check")
 }
 
